@@ -25,13 +25,14 @@ ID = "C11"
 LEVEL = "exploration"
 RULE = (
     "Hypothesis: tree (3..25 files over the name pool) x exclusion lists (0..4 patterns per source: option / "
-    ".codelimit.yml / .gitignore) x root spelling; each tree is written to disk and scanned once. Non-trivial = the tree "
+    ".codelimit.yml / .gitignore; the latter with comment lines / without final newline) x root spelling; contents include CRLF, lone CR and "
+    "non-UTF-8 bytes; each tree is written to disk and scanned once. Non-trivial = the tree "
     "holds a hidden file or directory, a file excluded by a configured pattern, and a qualifying file at depth >= 3; "
     "distinct by digest of (tree, exclusions, root spelling)"
 )
 ASSUMPTIONS = [
     "only the five pattern classes whose gitignore semantics are unambiguous are generated (no negation, '**', classes, escapes)",
-    "extensions are restricted to ones whose Pygments mapping is unique (.h is avoided)",
+    "extensions are restricted to ones whose Pygments mapping is unique (.h is avoided); whole-name patterns of other lexers (Makefile.*, Kconfig*, BUILD.bazel) are in the name pool and in the reference table, which is cross-checked against Pygments at run time",
     "exclusions given 'by option' are placed in Configuration.exclude and the config file is loaded with Configuration.load(root), as codelimit.__main__.scan does",
     "the built-in exclusion list is the one transcribed in vf/ref/gitignore.py",
 ]
